@@ -153,81 +153,7 @@ func runC12(p *core.Prog, r *core.Report, tier string) {
 	r.Count("calls under config lock", underLock)
 
 	// (d) keep current on failure; stores under the write lock
-	nStores := 0
-	for _, f := range fns {
-		held := la.HeldAt(f)
-		core.EachInstr(f, func(in ssa.Instruction) {
-			st, ok := in.(*ssa.Store)
-			if !ok {
-				return
-			}
-			id, _, ok := core.FieldOfAddr(st.Addr)
-			if !ok || id != cfgField {
-				return
-			}
-			if f.Name() == "New" {
-				// (e) constructor: non-nil
-				r.Check(!core.IsNilConst(st.Val), "C12.e", "New|initial-config", p.Pos(st.Pos()), "constructor stores a non-nil configurator", "constructor stores a nil configurator")
-				return
-			}
-			nStores++
-			construct := core.FnKey(f) + "|store-config"
-			r.Check(held[in].HasField(cfgMu, true), "C12.d", construct+"|locked", p.Pos(st.Pos()), "store under the write lock", "store to executionConfig without executionConfigMu write-held")
-			// the fetch call(s) in f
-			for i, lf := range core.PhiLeaves(st.Val, st) {
-				d := ds.D(lf.V)
-				lc := fmt.Sprintf("%s|leaf#%d", construct, i+1)
-				if fid, ok := core.FieldOfValue(lf.V); ok && fid == cfgField {
-					r.Hold("C12.d", lc, p.Pos(st.Pos()), "stored value is the current configuration (kept)")
-					continue
-				}
-				if core.IsNilConst(lf.V) {
-					r.Violate("C12.d", lc, p.Pos(st.Pos()), "nil is stored as the execution configuration")
-					continue
-				}
-				// fetched value: must be Extract#0 of a call returning (cfg, error); guarded by err == nil and value != nil
-				ex, ok := lf.V.(*ssa.Extract)
-				if !ok {
-					r.Violate("C12.d", lc, p.Pos(st.Pos()), "stored configuration derives neither from the current one nor from a checked fetch: "+d.String())
-					continue
-				}
-				call := ex.Tuple
-				errNil := func(c core.Cond) int { return core.ErrNilSucc(c, call) }
-				w1 := core.UnguardedLeaf(ds, f, call.(ssa.Instruction), lf, errNil)
-				if w1 != nil {
-					r.Violate("C12.d", lc, p.Pos(st.Pos()), "the fetched value is stored on a path where the fetch error was not nil (a failed refresh replaces the last good configuration)", p.WitnessText(w1)...)
-					continue
-				}
-				w2 := core.UnguardedLeaf(ds, f, call.(ssa.Instruction), lf, func(c core.Cond) int {
-					if c.Op != "==" && c.Op != "!=" {
-						return -1
-					}
-					var o *core.VD
-					if c.Y.Kind == "const" && c.Y.Name == "nil" {
-						o = c.X
-					} else if c.X.Kind == "const" && c.X.Name == "nil" {
-						o = c.Y
-					} else {
-						return -1
-					}
-					if o.Val != lf.V {
-						return -1
-					}
-					for s := 0; s < 2; s++ {
-						if c.RelOnEdge(s) == "!=" {
-							return s
-						}
-					}
-					return -1
-				})
-				if w2 != nil {
-					r.Violate("C12.d", lc, p.Pos(st.Pos()), "the fetched value is stored on a path where it may be nil (an empty result replaces the last good configuration)", p.WitnessText(w2)...)
-					continue
-				}
-				r.Hold("C12.d", lc, p.Pos(st.Pos()), "fetched value stored only when err == nil and value != nil")
-			}
-		})
-	}
+	nStores := checkConfigStores(p, r, ds, la, "C12.d", fns, cfgField, cfgMu)
 	r.Floor("C12.d stores to executionConfig outside New", nStores, 1)
 
 	// (e) New: the initial store dominates the first fetch
@@ -311,6 +237,41 @@ func runC12(p *core.Prog, r *core.Report, tier string) {
 	// (i) no entry of the decoded configuration can crash a lookup: shared with C16.d for the configuration packages
 	nI := checkDecodedCollections(p, r, ds, "C12.i", p.SrcFuncs(), func(rel string) bool { return strings.HasPrefix(rel, "services/blockrelay") })
 	r.Floor("C12.i decoded configuration entries dereferenced", nI, 4)
+
+	// (l) semaphores of the package are handed back: a tested TryAcquire that succeeded is followed by a Release on
+	// every path (the registration round's activity semaphore, the unblinding probes)
+	nProbe := 0
+	for _, f := range fns {
+		if f.Parent() != nil {
+			continue
+		}
+		nProbe += checkSemaphoreProbes(p, r, ds, "C12.l", f)
+	}
+	r.Floor("C12.l semaphore probes", nProbe, 2)
+
+	// (m) wait groups of the package balance: a registration round or a forwarded request always comes back
+	nWG := checkWaitGroupBalance(p, r, "C12.m", fns, "the registration round (and with it the activity semaphore) or the beacon node's request never finishes")
+	r.Floor("C12.m wait group Add sites", nWG, 2)
+
+	// (n) readers of the configuration wait for it: no non-blocking lock attempt (TryLock/TryRLock) whose failure is
+	// answered with something else than the configuration obtained (a pending writer makes every attempt fail)
+	nTry := 0
+	for _, f := range fns {
+		for _, ci := range core.Calls(f, func(c *ssa.CallCommon) bool {
+			callee := c.StaticCallee()
+			if callee == nil || callee.Signature.Recv() == nil {
+				return false
+			}
+			rt := callee.Signature.Recv().Type().String()
+			return (strings.HasSuffix(rt, "sync.RWMutex") || strings.HasSuffix(rt, "sync.Mutex")) && strings.HasPrefix(callee.Name(), "Try")
+		}) {
+			nTry++
+			r.Violate("C12.n", fmt.Sprintf("%s|non-blocking-lock#%d", core.FnKey(f), nTry), p.Pos(ci.Pos()), "a lock of the package is only tried ("+core.CalleeName(ci.Common())+"): while a refresh holds or waits for the lock the caller carries on without the last good configuration (fallback values are returned although a configuration was obtained)")
+		}
+	}
+	if nTry == 0 {
+		r.Hold("C12.n", "no-non-blocking-lock", "", "no TryLock/TryRLock on a mutex in the package: readers wait for the configuration")
+	}
 
 	// (j) using the configuration does not alter it: the resolvers write nothing that is reached from the
 	// configuration object (the last good configuration stays as it was obtained)
@@ -471,4 +432,87 @@ func checkConfiguratorObjects(p *core.Prog, r *core.Report, ds *core.Describer, 
 		}
 	}
 	return nH
+}
+
+// checkConfigStores: every store to the service's execution configuration outside New keeps the current value, or
+// stores a fetched one only on the edge err == nil and value != nil, under the write lock. Returns the stores seen.
+func checkConfigStores(p *core.Prog, r *core.Report, ds *core.Describer, la *core.LockAnalysis, rule string, fns []*ssa.Function, cfgField, cfgMu core.FieldID) int {
+	nStores := 0
+	for _, f := range fns {
+		held := la.HeldAt(f)
+		core.EachInstr(f, func(in ssa.Instruction) {
+			st, ok := in.(*ssa.Store)
+			if !ok {
+				return
+			}
+			id, _, ok := core.FieldOfAddr(st.Addr)
+			if !ok || id != cfgField {
+				return
+			}
+			if f.Name() == "New" {
+				// (e) constructor: non-nil
+				if rule == "C12.d" {
+					r.Check(!core.IsNilConst(st.Val), "C12.e", "New|initial-config", p.Pos(st.Pos()), "constructor stores a non-nil configurator", "constructor stores a nil configurator")
+				}
+				return
+			}
+			nStores++
+			construct := core.FnKey(f) + "|store-config"
+			r.Check(held[in].HasField(cfgMu, true), rule, construct+"|locked", p.Pos(st.Pos()), "store under the write lock", "store to executionConfig without executionConfigMu write-held")
+			// the fetch call(s) in f
+			for i, lf := range core.PhiLeaves(st.Val, st) {
+				d := ds.D(lf.V)
+				lc := fmt.Sprintf("%s|leaf#%d", construct, i+1)
+				if fid, ok := core.FieldOfValue(lf.V); ok && fid == cfgField {
+					r.Hold(rule, lc, p.Pos(st.Pos()), "stored value is the current configuration (kept)")
+					continue
+				}
+				if core.IsNilConst(lf.V) {
+					r.Violate(rule, lc, p.Pos(st.Pos()), "nil is stored as the execution configuration")
+					continue
+				}
+				// fetched value: must be Extract#0 of a call returning (cfg, error); guarded by err == nil and value != nil
+				ex, ok := lf.V.(*ssa.Extract)
+				if !ok {
+					r.Violate(rule, lc, p.Pos(st.Pos()), "stored configuration derives neither from the current one nor from a checked fetch: "+d.String())
+					continue
+				}
+				call := ex.Tuple
+				errNil := func(c core.Cond) int { return core.ErrNilSucc(c, call) }
+				w1 := core.UnguardedLeaf(ds, f, call.(ssa.Instruction), lf, errNil)
+				if w1 != nil {
+					r.Violate(rule, lc, p.Pos(st.Pos()), "the fetched value is stored on a path where the fetch error was not nil (a failed refresh replaces the last good configuration)", p.WitnessText(w1)...)
+					continue
+				}
+				w2 := core.UnguardedLeaf(ds, f, call.(ssa.Instruction), lf, func(c core.Cond) int {
+					if c.Op != "==" && c.Op != "!=" {
+						return -1
+					}
+					var o *core.VD
+					if c.Y.Kind == "const" && c.Y.Name == "nil" {
+						o = c.X
+					} else if c.X.Kind == "const" && c.X.Name == "nil" {
+						o = c.Y
+					} else {
+						return -1
+					}
+					if o.Val != lf.V {
+						return -1
+					}
+					for s := 0; s < 2; s++ {
+						if c.RelOnEdge(s) == "!=" {
+							return s
+						}
+					}
+					return -1
+				})
+				if w2 != nil {
+					r.Violate(rule, lc, p.Pos(st.Pos()), "the fetched value is stored on a path where it may be nil (an empty result replaces the last good configuration)", p.WitnessText(w2)...)
+					continue
+				}
+				r.Hold(rule, lc, p.Pos(st.Pos()), "fetched value stored only when err == nil and value != nil")
+			}
+		})
+	}
+	return nStores
 }
